@@ -22,7 +22,7 @@ try:
     _m = re.search(r"(pkg/[\w/]+?)(?:/[\w]+\.go|\s|\)|$)", meta.get("demo_location", "") or "")
     demo_dir = _m.group(1) if _m else ""
     demo_loc = demo_dir
-    demo_cmd = meta.get("demo_cmd", "")
+    demo_cmd = re.sub(r"\s{2,}\((optional|or|note)[^)]*\)\s*$", "", meta.get("demo_cmd", ""))
     k = os.path.basename(os.path.normpath(src))
     def place_demo():
         # the meta's command usually copies out/<k>/demo… itself; provide out/<k>/ and, as a fallback, place the file
